@@ -12,7 +12,7 @@ RULE = ("every GT string over alleles {., 0,1,2,3,7,10} x separators {/,|} x plo
         "1477 strings, plus the whole-field '.'): (a) classification function vs model; (b) each GT in a selected column of a "
         "one-record VCF run through `sfs create -vv` (stdout, exit status, per-sample trace reason) vs the model of the run; "
         "(c) the same GT in an unselected column must give the output of a run without it; (d) the same through BCF "
-        "(noodles writer; strings noodles cannot encode are counted as skipped). non-trivial = GT is not the reference 0/0; two populations with one projected to no individuals (shape 1) x every class triple")
+        "(noodles writer; strings noodles cannot encode are counted as skipped). non-trivial = GT is not the reference 0/0; two populations with one projected to no individuals (shape 1) x every class triple; diagnostics for records on contigs the header does not declare")
 
 ALLELES = [".", "0", "1", "2", "3", "7", "10"]
 WIDE = ["256", "257", "65537", "4294967296", "4294967297"]      # indices that wrap to 0 / 1 in u8, u16, u32
@@ -233,12 +233,15 @@ def check(rep, tier, seed):
     # container (also a BCF whose contig dictionary numbers the contigs against their listing order, and minor version 1)
     djobs, dwant = [], []
     for g in ("0", "1", "0/1/1", "1|1|0"):
-        for (c1, c2, pbad) in (("chr1", "chr2", 7), ("chr2", "chr1", 123456), ("chr1", "chr1", 3)):
+        # ... also on contigs the header does not declare (##contig lines are optional in VCF; BCF cannot express this)
+        for (c1, c2, pbad) in (("chr1", "chr2", 7), ("chr2", "chr1", 123456), ("chr1", "chr1", 3), ("scaf_12", "scaf_12", 77), ("chr1", "scaf_9", 12), ("scaf_3", "chr2", 5)):
             recs_d = [["0/1", "0/0"], ["1/1", "0/1"], [g, "0/1"], ["0/0", "0/0"]]
             ctgs, poss = [c1, c1, c2, c2], [5, 9, pbad, pbad + 4]
             v = render_vcf(["s1", "s2"], recs_d, contigs=ctgs, positions=poss)
-            for name, data in (("vcf", v), ("vcf.gz", bgzf_compress(v)), ("bcf", bcf_encode_hts(v)), ("bcf-idx-reversed", bcf_encode_hts(v, idx_reversed=True)),
-                               ("bcf-v2.1-bgzf", bgzf_compress(bcf_encode_hts(v, minor=1, idx_reversed=True)))):
+            forms_d = [("vcf", v), ("vcf.gz", bgzf_compress(v))]
+            if bcf_encode_hts(v) is not None:
+                forms_d += [("bcf", bcf_encode_hts(v)), ("bcf-idx-reversed", bcf_encode_hts(v, idx_reversed=True)), ("bcf-v2.1-bgzf", bgzf_compress(bcf_encode_hts(v, minor=1, idx_reversed=True)))]
+            for name, data in forms_d:
                 djobs.append((["create"], data)); dwant.append(("'%s:%d'" % (c2, pbad), name, g))
                 djobs.append((["create", "-s", "s2", "--strict"], data.replace(b"0/0\t0/0", b"0/0\t./.") if name == "vcf" else data)); dwant.append((None, name, g))
     for job, (want, name, g), (rc, so, se) in zip(djobs, dwant, run_cli_many(djobs)):
